@@ -299,7 +299,7 @@ class Ctx:
         except subprocess.TimeoutExpired:
             raise MachineryError("harness %s %s timed out after %ds" % (cmdname, args, timeout))
         res = []
-        for line in p.stdout.splitlines():
+        for line in p.stdout.split("\n"):          # not splitlines(): U+0085 etc. inside a JSON string is no line end
             line = line.strip()
             if line.startswith("{"):
                 try:
